@@ -1,20 +1,22 @@
-SPECIFICATION FairSpec
+SPECIFICATION MCSpec
 CONSTANTS
  Calls = {1, 2}
  MCCalls = {1, 2}
  Poll = 2
  Ticks = TRUE
  Defect = "none"
- MaxTime = 2
+ MaxTime = 3
  MaxAtt = 2
- ShutTOs <- TONever
- PCancel = {}
+ ShutTOs <- TOBoth
+ PCancel = {2}
  Gates = {FALSE}
  DL1 <- DL2
  DL2s <- DLN
- W2 <- WT
+ W2 <- WF
  LB2 <- LA
  W3 <- WT
- Res <- R2
-PROPERTIES AllCallsEnd
+ Res <- R3
+INVARIANTS Safety
+PROPERTIES Independent
+VIEW View
 CHECK_DEADLOCK FALSE
